@@ -199,15 +199,16 @@ impl Watcher {
 
         let uuid = extended_appointment.uuid();
 
+        // The locator cache is held from here until the appointment is stored, so concurrent requests
+        // for the same appointment are charged and stored one after the other (otherwise both would be
+        // charged as new before either is stored). Blocks are processed holding it too, so the appointment
+        // cannot be triggered by a block between the check right below and the moment it is stored.
+        let locator_cache = self.locator_cache.lock().unwrap();
+
         if self.responder.has_tracker(uuid) {
             log::info!("Tracker for {uuid} already found in Responder");
             return Err(AddAppointmentFailure::AlreadyTriggered);
         }
-
-        // The locator cache is held from here until the appointment is stored, so concurrent requests
-        // for the same appointment are charged and stored one after the other (otherwise both would be
-        // charged as new before either is stored).
-        let locator_cache = self.locator_cache.lock().unwrap();
 
         // TODO: This is not atomic, we update the users slots and THEN add their appointment
         // this means it can happen that we update the slots but some failure happens before we insert their appointment.
@@ -553,10 +554,12 @@ impl chain::Listen for Watcher {
             .map(|(_, tx)| (Locator::new(tx.compute_txid()), (*tx).clone()))
             .collect();
 
-        self.locator_cache
-            .lock()
-            .unwrap()
-            .update(*header, &locator_tx_map);
+        // The locator cache is held while the block is processed. Requests adding (or replacing) an appointment hold it from
+        // the moment they check whether the appointment has been triggered until it is stored, so they see either all or
+        // nothing of this block. Otherwise an appointment could be replaced while the breach of its previous version is
+        // being responded to: the response was sent and its tracker then dropped along with the rejected replacement.
+        let mut locator_cache = self.locator_cache.lock().unwrap();
+        locator_cache.update(*header, &locator_tx_map);
 
         // Get the breaches found in this block, handle them, and delete invalid ones.
         if let Some(invalid_breaches) = self.handle_breaches(self.get_breaches(locator_tx_map)) {
@@ -566,6 +569,7 @@ impl chain::Listen for Watcher {
         // Update last known block
         self.last_known_block_height
             .store(height, Ordering::Release);
+        drop(locator_cache);
     }
 
     /// Handle reorgs in the [Watcher].
